@@ -7,17 +7,17 @@ From TP Require Import Model.Prelude Extracted Model.Toxics Model.Timed
      Proofs.StageContract Proofs.LinkInv Proofs.LinkStatic Proofs.C01Proofs.
 
 (** delivered ++ in flight ++ not yet read = what the sender wrote, in every reachable state *)
-Theorem C01_safety : forall chain src draws sigma l,
+Theorem C01_safety : forall chain src draws sd sigma l,
   chain_ok chain ->
-  sched_run (link_init chain src draws) sigma = Some l ->
+  sched_run (link_init_slow chain src draws sd) sigma = Some l ->
   sink_bytes l ++ flow (l_stubs l) ++ pending l = src_bytes src.
 Proof. exact c01_safety. Qed.
 
 (** hence what the receiver has got is always a prefix of what was sent: nothing lost,
     duplicated, reordered or altered *)
-Theorem C01_prefix : forall chain src draws sigma l,
+Theorem C01_prefix : forall chain src draws sd sigma l,
   chain_ok chain ->
-  sched_run (link_init chain src draws) sigma = Some l ->
+  sched_run (link_init_slow chain src draws sd) sigma = Some l ->
   is_prefix (sink_bytes l) (src_bytes src).
 Proof. exact c01_prefix. Qed.
 
@@ -26,16 +26,16 @@ Theorem C01_quiet_is_a_schedule : forall fuel horizon l l',
   run_quiet fuel horizon l = Some l' -> exists sigma, sched_run l sigma = Some l'.
 Proof. exact run_quiet_sched. Qed.
 
-Theorem C01_safety_quiet : forall chain src draws fuel horizon l,
+Theorem C01_safety_quiet : forall chain src draws sd fuel horizon l,
   chain_ok chain ->
-  run_quiet fuel horizon (link_init chain src draws) = Some l ->
+  run_quiet fuel horizon (link_init_slow chain src draws sd) = Some l ->
   sink_bytes l ++ flow (l_stubs l) ++ pending l = src_bytes src.
 Proof. exact c01_safety_quiet. Qed.
 
 (** no stage panics or diverges on any schedule *)
-Theorem C01_never_dead : forall chain src draws sigma l,
+Theorem C01_never_dead : forall chain src draws sd sigma l,
   chain_ok chain ->
-  sched_run (link_init chain src draws) sigma = Some l ->
+  sched_run (link_init_slow chain src draws sd) sigma = Some l ->
   Forall (fun s => mode_of (s_st s) <> MDead) (l_stubs l).
 Proof. exact c01_never_dead. Qed.
 
